@@ -1050,9 +1050,18 @@ def encode_pair(g1, g2):
             voc[k] = len(voc)
         return 2 * voc[k] + (1 if is_b(x) else 0)
     g1 = bfs_order(g1)
-    a = " ".join(str(code(x)) for t in g1 for x in t)
-    b = " ".join(str(code(x)) for t in g2 for x in t)
-    return a, b, voc
+
+    def coded(g):
+        # equal rdflib terms share a code ("x"@en / "x"@EN): the graph holds such a triple once, and the models that
+        # read the list as a multiset (canonSearch, the colour refinement) need it once
+        seen, out = set(), []
+        for t in g:
+            ct = tuple(code(x) for x in t)
+            if ct not in seen:
+                seen.add(ct)
+                out.extend(ct)
+        return " ".join(str(c) for c in out)
+    return coded(g1), coded(g2), voc
 
 
 def bfs_order(g):
@@ -1880,15 +1889,24 @@ def _neutral(x):
     return x.replace("/.well-known/genid", "/not-well-known/gen-id") if x.startswith("<") else x
 
 
+def _neutral_both(case):
+    """the case with BOTH known shapes taken out: genid IRIs in subject / object position moved off the genid path
+    (C14-K1) and blank-node ids that skolemize cannot encode replaced by plain ones (C14-K2).  A generated graph may show
+    the two at once (seed 7 of the thorough search did); each matcher then has to discount the other mechanism, or
+    neither accepts the case."""
+    ren = {b: "_:plainid%d" % k for k, b in enumerate(k2_case(case))}
+    return {**case, "g": [[ren.get(t[0], _neutral(t[0])), t[1], ren.get(t[2], _neutral(t[2]))] for t in case["g"]]}
+
+
 def _m_genid(case, result):
     """skolem round trip fails *because* the input already contains an IRI under /.well-known/genid/ in subject or
-    object position: the same graph with those IRIs moved off the genid path round-trips."""
+    object position: the same graph with those IRIs moved off the genid path (and ids of the K2 kind, if any, replaced)
+    round-trips."""
     if case.get("kind") != "skolem" or not result["viol"] or any(v.split(":")[0] != "skolem" for v in result["viol"]):
         return False
     if not any(GENID in x for t in case["g"] for x in (t[0], t[2]) if x.startswith("<")):
         return False
-    clean = {**case, "g": [[_neutral(t[0]), t[1], _neutral(t[2])] for t in case["g"]]}
-    return not run_skolem(clean)["viol"]
+    return not run_skolem(_neutral_both(case))["viol"]
 
 
 def _m_langtag(case, result):
@@ -1940,15 +1958,13 @@ def _m_traces_leaves(case, result):
 
 def _m_dotseg(case, result):
     """(known, C14-K2) the skolem round trip fails *because* a blank-node id has a '.' / '..' path segment or contains
-    the genid path: the same graph with those ids replaced by plain ones round-trips"""
+    the genid path: the same graph with those ids replaced by plain ones (and genid IRIs of the K1 kind, if any, moved
+    off the genid path) round-trips"""
     if case.get("kind") != "skolem" or not result["viol"] or any(v.split(":")[0] != "skolem" for v in result["viol"]):
         return False
-    bad = k2_case(case)
-    if not bad:
+    if not k2_case(case):
         return False
-    ren = {b: "_:plainid%d" % k for k, b in enumerate(bad)}
-    clean = {**case, "g": [[ren.get(x, x) for x in t] for t in case["g"]]}
-    return not run_skolem(clean)["viol"]
+    return not run_skolem(_neutral_both(case))["viol"]
 
 
 def _m_uriref(case, result):
